@@ -42,7 +42,7 @@ func checkC05(c *Ctx) {
 		return
 	}
 	c05model(c, "C05.R1", "C05.R2", "C05.R3")
-	c05hex(c, "C05.R4")
+	c05hex(c, "C05.R4", "")
 	checkFreshResult(c, "C05.R5", c.P.Func("encoding/wkb", "Encode"), c.P.Func("encoding/hex", "Encode"))
 	c.Floor("C05.R5", 2)
 	c.Floor("C05.R1", 7)
